@@ -209,20 +209,25 @@ example : WfReucPath { name := [97, 47, 98], stages := [some (0o100644, List.rep
 /-- The cache-tree extension: what git's `write_one` writes for a tree (names without NUL and
 distinct among siblings, valid nodes with a count below 2^31 and a 20-byte id) decodes to that
 tree in gitoxide's canonical form — children sorted by name at every level, the null id for
-invalidated nodes. -/
-theorem tree_ext_roundtrip (t : Tree) (hwf : WfTree t) :
+invalidated nodes — provided it is nested no deeper than the decoder's `MAX_DEPTH` of 4096 (a
+path of that depth cannot exist on a file system). -/
+theorem tree_ext_roundtrip (t : Tree) (hwf : WfTree t) (hdepth : treeHeight t ≤ maxDepth) :
     treeDecodeOpt (gitEncodeTree t) = some (canonTree t) :=
-  treeDecodeOpt_encoded t hwf
+  treeDecodeOpt_encoded t hwf hdepth
+
+example : treeHeight (.mk [] (List.replicate 20 1) (some 3)
+    [.mk [98] (List.replicate 20 2) (some 1) [], .mk [97, 97] [] none []]) = 1 := by
+  simp [treeHeight, treesHeight]
 
 example : WfTree (.mk [] (List.replicate 20 1) (some 3)
     [.mk [98] (List.replicate 20 2) (some 1) [], .mk [97, 97] [] none []]) := by
   simp [WfTree, WfTrees, Tree.name, hashLen]
 
 /-- `file_roundtrip` with the cache-tree content spelled out. -/
-theorem file_roundtrip_tree (t : Tree) (hwf : WfTree t) (reuc : Option (List ReucPath))
-    (sparse recordIeot recordEoie : Bool) :
+theorem file_roundtrip_tree (t : Tree) (hwf : WfTree t) (hdepth : treeHeight t ≤ maxDepth)
+    (reuc : Option (List ReucPath)) (sparse recordIeot recordEoie : Bool) :
     (expectedExts (some t) reuc sparse recordIeot recordEoie).tree = some (canonTree t) := by
-  simp only [expectedExts, Option.bind_some, treeDecodeOpt_encoded t hwf]
+  simp only [expectedExts, Option.bind_some, treeDecodeOpt_encoded t hwf hdepth]
 
 /-- `file_roundtrip` with the resolve-undo content spelled out. -/
 theorem file_roundtrip_reuc (tree : Option Tree) (ps : List ReucPath) (hwf : ∀ p ∈ ps, WfReucPath p)
